@@ -455,10 +455,18 @@ class HttpProxyPlugin(HttpProtocolHandlerPlugin):
                     )
                 self.pipeline_request.parse(raw)
                 if self.pipeline_request.is_complete:
+                    # Bytes following a complete request in the
+                    # same read belong to the next request.
+                    remainder = self.pipeline_request.buffer
                     for plugin in self.plugins.values():
                         assert self.pipeline_request is not None
                         r = plugin.handle_client_request(self.pipeline_request)
                         if r is None:
+                            # Request dropped by the plugin, next
+                            # request must start with a fresh parser.
+                            self.pipeline_request = None
+                            if remainder:
+                                self.on_client_data(remainder)
                             return
                         self.pipeline_request = r
                     assert self.pipeline_request is not None
@@ -485,11 +493,8 @@ class HttpProxyPlugin(HttpProtocolHandlerPlugin):
                             ),
                         ),
                     )
-                    remainder = self.pipeline_request.buffer
                     if not self.pipeline_request.is_connection_upgrade:
                         self.pipeline_request = None
-                    # Bytes following a complete request in the
-                    # same read belong to the next request.
                     if remainder:
                         self.on_client_data(remainder)
             # For scenarios where we cannot peek into the data,
